@@ -62,7 +62,15 @@ def workloads(draw):
             init.append(v)
     if init[0]["k"] in ("arith", "raise_if") and n > 3:
         init[0] = {"k": "call", "callee": 1, "shift": 0, "add": 1}
-    ei = draw(st.integers(0, n - 2))
+    # the edited task is never beneath a catch(): a recovered catch is replayed after such an edit
+    # whatever happened to the recording (C02's open finding catch-recovery-replayed:subtree-edit)
+    fam = codefam.Family(n)
+    fam.variants = list(init)
+    under = set()
+    for v in init:
+        if v["k"] == "catch":
+            under |= fam.uses(v["callee"])
+    ei = draw(st.sampled_from([i for i in range(n - 1) if i not in under] or [0]))
     ev = dict(draw(c02.variant_strategy(ei, n, False)))
     if ev["k"] == "readfile":
         ev = {"k": "arith", "mul": 2, "add": 7}
